@@ -12,81 +12,197 @@
 (*   o  = <<sink_ready, src_valid, src_data>>                              *)
 (*   valid/data belong to the write domain, ready to the read domain: they *)
 (*   change only right after an edge of their own clock.                   *)
+(*   c.rst # 0 (ClockDomainCrossing(with_common_rst=True)):                *)
+(*   iv = <<tk, valid, data, ready, rw, rr>>, rw = ResetSignal(cd_from), a *)
+(*   write-domain signal, rr = ResetSignal(cd_to), a read-domain signal.   *)
+(*   c.rst: 1 only rw is pulsed, 2 only rr, 3 either (never both at once). *)
+(*   A pulse is held until c.rh edges of EACH clock have happened under it *)
+(*   (premise; c.rh = c.r + 3 is the shortest hold for which the contract  *)
+(*   holds: one source edge clears the pointer, two to three destination   *)
+(*   edges flush the reset-less pointer synchroniser; shorter pulses are a *)
+(*   recorded finding), at most c.nrst pulses per behaviour (0: any number)*)
+(*   Contract: while the common reset R = rw \/ rr is asserted the crossing*)
+(*   is being flushed - what the producer hands over is dropped, what the  *)
+(*   read side shows is not judged; from the first instant with R = 0 on   *)
+(*   both sides are empty (sink ready, source not valid), nothing that was *)
+(*   accepted before or during the pulse is delivered any more, and every  *)
+(*   FIFO clause holds again for the tokens accepted from then on.         *)
+(*   LIMITS OF THE RESET STAND-IN.  AsyncResetSynchronizer is a vendor     *)
+(*   primitive (asynchronous assertion, de-assertion through two flops of  *)
+(*   the domain's own clock).  The repository's simulator, and therefore   *)
+(*   the netlist explored here, lowers it to `cd.rst = async_reset`        *)
+(*   (litex/gen/sim/core.py, DummyAsyncResetSynchronizerImpl): (i) the     *)
+(*   reset acts only at clock edges (Migen resets are synchronous), a pulse*)
+(*   covering no edge of a domain does not reset it; (ii) both domains see *)
+(*   assertion and release in the same instant - no two-edge stretch, no   *)
+(*   skew between the two releases, no metastability of the reset path;    *)
+(*   (iii) rw/rr are modelled as signals of their own domain.  Statements  *)
+(*   about pulse lengths are statements about this stand-in.               *)
 (* c.kind = "bus": multi-bit bus synchroniser                              *)
 (*   iv = <<tk, i, 0, 0>>   o = <<0, 0, o>>                                *)
 (*   clock drift bounded: at most c.r consecutive edges of one clock       *)
 (*   without an edge of the other.                                         *)
-(* c: kind, cap, dset (data / bus word alphabet), r                        *)
+(* c.kind = "pulse": PulseSynchronizer (toggle + MultiReg + edge detector) *)
+(*   iv = <<tk, i, 0, 0>>   o = <<0, 0, o>>                                *)
+(*   an input pulse = i high at a write edge, an output pulse = o high at  *)
+(*   a read edge.  Premise: after an input pulse the input stays low for   *)
+(*   c.quiet write edges.  c.quiet >= c.r + 1 is what the mechanism needs: *)
+(*   the toggle must be stable at one read edge before it flips again, and *)
+(*   under drift c.r the c.r + 1 write edges after a pulse may hold only   *)
+(*   one read edge, coinciding with the last of them (with c.quiet = c.r a *)
+(*   pulse is lost: canary).                                               *)
+(*   Contract: output pulses never outnumber input pulses (no spurious     *)
+(*   pulse) and every input pulse has produced its own output pulse by the *)
+(*   time c.lat + 1 read edges have followed it (exactly one, none lost).  *)
+(*   q holds, for every input pulse without its output pulse so far, the   *)
+(*   number of read edges that followed it.                                *)
+(* c: kind, cap, dset (data / bus word alphabet; T-mode: dmax > 0 stands   *)
+(*    for 0..dmax), r, rst, rh, nrst, quiet, lat                           *)
 (***************************************************************************)
 EXTENDS Integers, Sequences, FiniteSets, TLC
 
-VARIABLES q,       \* fifo: tokens accepted and not yet delivered
-          hold,    \* fifo: offered token not yet accepted (<<>> none)
-          lastw,   \* write-domain inputs <<valid, data>> (bus: <<i, 0>>) as of the last step
+VARIABLES q,       \* fifo: tokens accepted and not yet delivered; pulse: ages of the pulses in flight
+          hold,    \* fifo: offered token not yet accepted (<<>> none); pulse: <<quiet write edges still owed>>
+          lastw,   \* write-domain inputs <<valid, data>> (bus, pulse: <<i, 0>>) as of the last step
           lastr,   \* read-domain input ready as of the last step
           wfresh,  \* TRUE if the last step had a write edge (write-domain inputs may change now)
           rfresh,
           oprev,   \* fifo: output presented at a read edge and not accepted
           seen,    \* bus: words the input has held (plus the power-up value)
-          run,     \* bus: <<consecutive write-only edges, consecutive read-only edges>>
+          run,     \* <<consecutive write-only edges, consecutive read-only edges>>
+          rs,      \* common reset: <<rw, rr, write edges under the pulse, read edges under it, pulses begun>>
           obs
 
-cvars == <<q, hold, lastw, lastr, wfresh, rfresh, oprev, seen, run, obs>>
+cvars == <<q, hold, lastw, lastr, wfresh, rfresh, oprev, seen, run, rs, obs>>
 
 DSet(c) == { c.dset[i] : i \in 1..Len(c.dset) }
+InD(c, x) == IF c.dmax > 0 THEN x \in 0..c.dmax ELSE x \in DSet(c)
 HasW(tk) == tk \in {1, 3}
 HasR(tk) == tk \in {2, 3}
+Min(a, b) == IF a < b THEN a ELSE b
 
-\* c.r > 0 bounds the drift (always for the bus synchroniser; for FIFO crossings only in the quick tier)
-Ticks(c) == IF c.r > 0
-            THEN { tk \in {1, 2, 3} : (tk = 1 => run[1] < c.r) /\ (tk = 2 => run[2] < c.r) }
-            ELSE {1, 2, 3}
+\* c.r > 0 bounds the drift (always for the bus and pulse synchronisers; for FIFO crossings c.r = 0 means free)
+TickLegal(c, tk) == /\ tk \in {1, 2, 3}
+                    /\ c.r > 0 => ((tk = 1 => run[1] < c.r) /\ (tk = 2 => run[2] < c.r))
 
+\* w = <<valid, data>> (bus, pulse: <<i, 0>>): what the write domain may drive in this instant
+WLegal(c, w) ==
+  IF ~wfresh THEN w = lastw
+  ELSE IF c.kind = "bus" THEN w[2] = 0 /\ InD(c, w[1])
+  ELSE IF c.kind = "pulse" THEN w[2] = 0 /\ w[1] \in (IF hold # <<>> THEN {0} ELSE {0, 1})
+  ELSE IF hold # <<>> THEN w = <<1, hold[1]>>
+  ELSE w = <<0, 0>> \/ (w[1] = 1 /\ InD(c, w[2]))
+RLegal(c, r) == IF c.kind # "fifo" THEN r = 0 ELSE IF ~rfresh THEN r = lastr ELSE r \in {0, 1}
+
+\* the two reset inputs: each changes only after an edge of its own clock; never both high; a pulse is
+\* released only after c.rh edges of each clock
+RstLegal(c, a, b) ==
+  LET done == rs[3] >= c.rh /\ rs[4] >= c.rh
+      more == c.nrst = 0 \/ rs[5] < c.nrst
+      wok == IF ~wfresh THEN a = rs[1]
+             ELSE IF rs[1] = 1 THEN (a = 1 \/ done)
+             ELSE a = 0 \/ (c.rst \in {1, 3} /\ rs[2] = 0 /\ more)
+      rok == IF ~rfresh THEN b = rs[2]
+             ELSE IF rs[2] = 1 THEN (b = 1 \/ done)
+             ELSE b = 0 \/ (c.rst \in {2, 3} /\ rs[1] = 0 /\ more)
+  IN a \in {0, 1} /\ b \in {0, 1} /\ wok /\ rok /\ ~(a = 1 /\ b = 1)
+
+Legal(c, iv) ==
+  /\ Len(iv) = (IF c.rst # 0 THEN 6 ELSE 4)
+  /\ TickLegal(c, iv[1]) /\ WLegal(c, <<iv[2], iv[3]>>) /\ RLegal(c, iv[4])
+  /\ c.rst # 0 => RstLegal(c, iv[5], iv[6])
+
+\* G-mode: the environment's moves, enumerated constructively (TLC evaluates this set at every product state and,
+\* for the fairness condition, at every transition - a filter over candidate vectors doubled the liveness time).
+\* T-mode judges recorded stimuli with the predicate Legal; CdcGraph's invariant LegalAgrees checks on the small
+\* DUTs of every kind that both describe the same set.
+Ticks(c) == { tk \in {1, 2, 3} : TickLegal(c, tk) }
 WInputs(c) == IF ~wfresh THEN { lastw }
               ELSE IF c.kind = "bus" THEN { <<x, 0>> : x \in DSet(c) }
+              ELSE IF c.kind = "pulse" THEN (IF hold # <<>> THEN { <<0, 0>> } ELSE { <<0, 0>>, <<1, 0>> })
               ELSE IF hold # <<>> THEN { <<1, hold[1]>> }
               ELSE { <<0, 0>> } \cup { <<1, x>> : x \in DSet(c) }
-RInputs(c) == IF c.kind = "bus" THEN {0} ELSE IF ~rfresh THEN { lastr } ELSE {0, 1}
-
-Inputs(c) == { <<tk, w[1], w[2], r>> : tk \in Ticks(c), w \in WInputs(c), r \in RInputs(c) }
+RInputs(c) == IF c.kind # "fifo" THEN {0} ELSE IF ~rfresh THEN { lastr } ELSE {0, 1}
+RstInputs(c) == { p \in {<<0, 0>>, <<1, 0>>, <<0, 1>>} : RstLegal(c, p[1], p[2]) }
+Inputs(c) == IF c.rst = 0
+             THEN { <<tk, w[1], w[2], r>> : tk \in Ticks(c), w \in WInputs(c), r \in RInputs(c) }
+             ELSE { <<tk, w[1], w[2], r, p[1], p[2]>> : tk \in Ticks(c), w \in WInputs(c), r \in RInputs(c),
+                                                        p \in RstInputs(c) }
+\* every vector over the DUT's alphabet (for LegalAgrees)
+Cand(c) ==
+  LET D == DSet(c) \cup {0} IN
+  IF c.kind # "fifo" THEN { <<tk, x, y, r>> : tk \in {1, 2, 3}, x \in D \cup {1}, y \in {0, 1}, r \in {0, 1} }
+  ELSE IF c.rst = 0 THEN { <<tk, v, x, r>> : tk \in {1, 2, 3}, v \in {0, 1}, x \in D, r \in {0, 1} }
+  ELSE { <<tk, v, x, r, a, b>> : tk \in {1, 2, 3}, v \in {0, 1}, x \in D, r \in {0, 1}, a \in {0, 1}, b \in {0, 1} }
 
 CInit ==
   /\ q = <<>> /\ hold = <<>> /\ lastw = <<0, 0>> /\ lastr = 0 /\ wfresh = TRUE /\ rfresh = TRUE
-  /\ oprev = <<>> /\ seen = {0} /\ run = <<0, 0>>
-  /\ obs = [okorder |-> TRUE, okhold |-> TRUE, okbound |-> TRUE, okword |-> TRUE,
-            srcfire |-> FALSE, coop |-> FALSE, wtick |-> FALSE, rtick |-> FALSE, stable |-> -1, out |-> 0]
+  /\ oprev = <<>> /\ seen = {0} /\ run = <<0, 0>> /\ rs = <<0, 0, 0, 0, 0>>
+  /\ obs = [okorder |-> TRUE, okhold |-> TRUE, okbound |-> TRUE, okword |-> TRUE, okempty |-> TRUE,
+            okspur |-> TRUE, oklat |-> TRUE, srcfire |-> FALSE, coop |-> FALSE, wtick |-> FALSE,
+            rtick |-> FALSE, stable |-> -1, out |-> 0, inrst |-> FALSE]
 
 CStep(c, iv, o) ==
   LET tk == iv[1]
       fifo == c.kind = "fifo"
-      sinkfire == fifo /\ HasW(tk) /\ iv[2] = 1 /\ o[1] = 1
-      srcfire  == fifo /\ HasR(tk) /\ o[2] = 1 /\ iv[4] = 1
+      pulse == c.kind = "pulse"
+      rw == IF c.rst # 0 THEN iv[5] ELSE 0
+      rr == IF c.rst # 0 THEN iv[6] ELSE 0
+      R == rw = 1 \/ rr = 1                       \* common reset asserted in this instant
+      wasR == rs[1] = 1 \/ rs[2] = 1
+      taken    == fifo /\ HasW(tk) /\ iv[2] = 1 /\ o[1] = 1      \* the producer sees its offer accepted
+      sinkfire == taken /\ ~R                                   \* ... a crossing under reset drops it
+      srcfire  == fifo /\ HasR(tk) /\ o[2] = 1 /\ iv[4] = 1 /\ ~R
       okorder  == srcfire => (q # <<>> /\ Head(q) = o[3])
       q1 == IF srcfire /\ q # <<>> THEN Tail(q) ELSE q
       q2 == IF sinkfire THEN Append(q1, iv[3]) ELSE q1
+      \* pulse synchroniser
+      inpulse  == pulse /\ HasW(tk) /\ iv[2] = 1
+      outpulse == pulse /\ HasR(tk) /\ o[3] = 1
+      p1 == IF outpulse /\ q # <<>> THEN Tail(q) ELSE q
+      p2 == IF HasR(tk) THEN [k \in 1..Len(p1) |-> p1[k] + 1] ELSE p1
+      p3 == IF inpulse THEN Append(p2, 0) ELSE p2
+      owed == IF hold = <<>> THEN 0 ELSE hold[1]
+      owed2 == IF inpulse THEN c.quiet ELSE IF HasW(tk) /\ owed > 0 THEN owed - 1 ELSE owed
   IN
-  /\ q' = IF Len(q2) <= c.cap THEN q2 ELSE q1
-  /\ hold' = IF fifo /\ iv[2] = 1 /\ ~sinkfire THEN <<iv[3]>> ELSE <<>>
+  /\ q' = IF pulse THEN (IF Len(p3) <= c.cap THEN p3 ELSE p2)
+          ELSE IF R THEN <<>>
+          ELSE IF Len(q2) <= c.cap THEN q2 ELSE q1
+  /\ hold' = IF pulse THEN (IF owed2 > 0 THEN <<owed2>> ELSE <<>>)
+             ELSE IF fifo /\ iv[2] = 1 /\ ~taken THEN <<iv[3]>> ELSE <<>>
   /\ lastw' = <<iv[2], iv[3]>> /\ lastr' = iv[4]
   /\ wfresh' = HasW(tk) /\ rfresh' = HasR(tk)
-  /\ oprev' = IF fifo /\ o[2] = 1 /\ ~srcfire THEN <<o[3]>> ELSE <<>>
+  /\ oprev' = IF fifo /\ ~R /\ o[2] = 1 /\ ~srcfire THEN <<o[3]>> ELSE <<>>
   /\ seen' = IF c.kind = "bus" THEN seen \cup { iv[2] } ELSE seen
   /\ run' = IF c.r = 0 THEN <<0, 0>>
             ELSE IF tk = 1 THEN <<run[1] + 1, 0>> ELSE IF tk = 2 THEN <<0, run[2] + 1>> ELSE <<0, 0>>
+  /\ rs' = IF c.rst = 0 THEN rs
+           ELSE <<rw, rr,
+                  IF R THEN Min(c.rh, rs[3] + (IF HasW(tk) THEN 1 ELSE 0)) ELSE 0,
+                  IF R THEN Min(c.rh, rs[4] + (IF HasR(tk) THEN 1 ELSE 0)) ELSE 0,
+                  IF R /\ ~wasR /\ c.nrst > 0 THEN rs[5] + 1 ELSE rs[5]>>
   /\ obs' = [okorder |-> okorder,
              \* an output presented and not taken stays (the read side sees it at every instant)
-             okhold  |-> (fifo /\ oprev # <<>>) => (o[2] = 1 /\ o[3] = oprev[1]),
-             okbound |-> Len(q2) <= c.cap,
+             okhold  |-> (fifo /\ oprev # <<>> /\ ~R) => (o[2] = 1 /\ o[3] = oprev[1]),
+             okbound |-> IF pulse THEN Len(p3) <= c.cap ELSE Len(q2) <= c.cap,
              \* a bus synchroniser only ever shows words its input really held at one instant
              okword  |-> (c.kind = "bus") => (o[3] \in seen \cup { iv[2] }),
+             \* first instant after a common reset pulse: both sides are empty
+             okempty |-> (fifo /\ wasR /\ ~R) => (o[1] = 1 /\ o[2] = 0),
+             okspur  |-> outpulse => q # <<>>,
+             oklat   |-> pulse => (\A k \in 1..Len(p3) : p3[k] <= c.lat),
              srcfire |-> srcfire,
-             coop    |-> (iv[2] = 1 /\ iv[4] = 1),
+             coop    |-> (iv[2] = 1 /\ iv[4] = 1 /\ ~R),
              wtick   |-> HasW(tk), rtick |-> HasR(tk),
              stable  |-> IF c.kind = "bus" THEN iv[2] ELSE -1,
-             out     |-> o[3]]
+             out     |-> o[3],
+             inrst   |-> R]
 
-InOrderExactlyOnce == obs.okorder   \* nothing corrupted, dropped, duplicated or reordered
+InOrderExactlyOnce == obs.okorder   \* nothing corrupted, dropped, duplicated or reordered (nor delivered after a flush)
 ValidHold          == obs.okhold
 NeverOverflows     == obs.okbound
 OnlyRealWords      == obs.okword
+EmptyAfterReset    == obs.okempty
+NoSpuriousPulse    == obs.okspur
+EveryPulseOnce     == obs.oklat    \* with NoSpuriousPulse and NeverOverflows: exactly one output pulse per input pulse
 =============================================================================
